@@ -3126,6 +3126,20 @@ fn convert_group<'a>(pair: Pair<'a, Rule>, input: &'a str) -> Result<ast::Group<
   })
 }
 
+/// Whether the text between two group entries contains a comma outside comments
+fn separator_has_comma(separator: &str) -> bool {
+  let mut in_comment = false;
+  for c in separator.chars() {
+    match c {
+      '\n' => in_comment = false,
+      ';' if !in_comment => in_comment = true,
+      ',' if !in_comment => return true,
+      _ => {}
+    }
+  }
+  false
+}
+
 /// Convert group choice
 fn convert_group_choice<'a>(
   pair: Pair<'a, Rule>,
@@ -3136,8 +3150,17 @@ fn convert_group_choice<'a>(
 
   let mut group_entries = Vec::new();
 
+  // The separators are anonymous tokens of `group_choice`, so whether an entry
+  // is followed by a comma is read off the text between it and the next entry
+  // (or the end of the group choice), skipping comments
+  let choice_end = pair.as_span().end();
+  let mut entry_ends: Vec<usize> = Vec::new();
+  let mut entry_starts: Vec<usize> = Vec::new();
+
   for inner in pair.into_inner() {
     if inner.as_rule() == Rule::group_entry {
+      entry_starts.push(inner.as_span().start());
+      entry_ends.push(inner.as_span().end());
       let entry = convert_group_entry(inner, input)?;
       group_entries.push((
         entry,
@@ -3148,6 +3171,13 @@ fn convert_group_choice<'a>(
           _a: core::marker::PhantomData,
         },
       ));
+    }
+  }
+
+  for (idx, (_, optional_comma)) in group_entries.iter_mut().enumerate() {
+    let separator_end = entry_starts.get(idx + 1).copied().unwrap_or(choice_end);
+    if let Some(separator) = input.get(entry_ends[idx]..separator_end) {
+      optional_comma.optional_comma = separator_has_comma(separator);
     }
   }
 
